@@ -215,3 +215,31 @@ def outcome_read_after_cancel_test(chk, rule: str, qual: str, what: str) -> None
         ok = bool(nodes) and all(('F', f'{recv}.cancelled()') in ff.at_call(m, c) for m in nodes)
         chk.ob(rule, f, ok, f'{what}: {recv}.{c.func.attr}() is read only after {recv}.cancelled() was found false (it raises CancelledError otherwise)', node=c, kind='cancelled-tested-first')
     chk.ob(rule, f, n >= 1, f'{what}: {n} outcome read(s) examined', kind='outcome-reads')
+
+
+def sentinels_are_unique_objects(chk, rule: str, modules=('ports',)) -> None:
+    """A module constant that code tells apart with ``is`` / ``is not`` stands for "no value given": it must be an object nobody else can
+    produce (``object()``, an instance of a private class).  A literal -- ``()`` -- is shared with every equal literal: CPython has ONE empty
+    tuple, so a caller's ``()`` IS the sentinel."""
+    import ast as _ast
+    from ..model import norm as _norm
+    prog = chk.prog
+    n = 0
+    for mname in modules:
+        mod = prog.module(mname)
+        used = set()
+        for x in _ast.walk(mod.tree):
+            if isinstance(x, _ast.Compare) and any(isinstance(o, (_ast.Is, _ast.IsNot)) for o in x.ops):
+                for y in [x.left] + x.comparators:
+                    if isinstance(y, _ast.Name) and y.id.isupper():
+                        used.add(y.id)
+        for name in sorted(used):
+            v = mod.constants.get(name)
+            if v is None:
+                continue
+            n += 1
+            literal = isinstance(v, (_ast.Tuple, _ast.Constant, _ast.List, _ast.Dict, _ast.Set)) and not (isinstance(v, _ast.Constant) and v.value is None)
+            chk.ob(rule, f'{mod.short}.{name}', not literal, f'{name} = {_norm(v)} is compared by identity: ' + ('a unique object' if not literal else
+                   'a literal every equal value is identical to -- a caller passing that value is treated as having passed nothing (type check and validator skipped for an optional '
+                   'port, "required value was not provided" for a port that accepts it)'), kind='sentinel-unique', expr=name)
+    chk.units['identity_sentinels'] = n
